@@ -893,6 +893,12 @@ Section Queries.
   Definition enforce_with_ctx (s : estate) (k : text) (rv : list value) : outcome bool :=
     enforce_ctx ptab (e_enabled s) (e_model s) (e_mexprs s) (e_fs s) k rv.
 
+  (* enforce_with_context with a hand-assembled EnforceContext: the four section
+     names are independent public fields; EnforceContext::new(k) is the special
+     case (r++k, p++k, e++k, m++k) *)
+  Definition enforce_with_ctx4 (s : estate) (rk pk ek mk : text) (rv : list value) : outcome bool :=
+    enforce_core ptab (e_enabled s) (e_model s) (e_mexprs s) (e_fs s) rk pk ek mk (tok pk s_eft) rv.
+
   (* rbac_api.rs get_implicit_users_for_permission *)
   Definition implicit_users (s : estate) (perm : rule) : option (list text) :=
     match m_values (e_model s) s_p s_p 0, m_values (e_model s) s_g s_g 1 with
